@@ -887,6 +887,8 @@ func howTwoWinners(evs []Event, v int, p1, p2 string) (string, []Event) {
 // value for the same version, but the vote then counts for the newer proposal.
 type holdTracker map[string]int64
 
+func seenKey(e *Event) string { return "seen|" + e.R + "|" + e.S }
+
 // abortOwesRelease feeds one "req" event (in log order) and reports whether it is an Abort that must leave the
 // replica `initial`: the replica holds a pre-commit of an Equal proposer for the same version and every PreCommit
 // it accepted for that hold is older than the Abort.
@@ -894,7 +896,11 @@ func (h holdTracker) abortOwesRelease(e *Event) bool {
 	if e.A == nil || e.B == nil {
 		return false
 	}
-	owed := e.T == "Abort" && e.Acpt && e.B.State == "acceptedPreCommit" && e.Eq && e.B.Ver == e.V && e.ST > max(e.B.Time, h[e.R])
+	// ... and the Abort is the newest message of its sender this replica has processed: an Abort that was overtaken
+	// by any later message of the same sender may be ignored as stale (the release is then owed by later events and
+	// judged by the end-of-run oracles).
+	owed := e.T == "Abort" && e.Acpt && e.B.State == "acceptedPreCommit" && e.Eq && e.B.Ver == e.V && e.ST > max(e.B.Time, h[e.R]) && e.ST > h[seenKey(e)]
+	h[seenKey(e)] = max(h[seenKey(e)], e.ST)
 	switch {
 	case e.A.State != "acceptedPreCommit":
 		delete(h, e.R)
